@@ -34,14 +34,15 @@ type c05Case struct {
 		Style   string `json:"style"`
 		Explode bool   `json:"explode"`
 	} `json:"cell"`
-	Shape     string   `json:"shape"`
-	Schema    any      `json:"schema"`
-	Required  bool     `json:"required"`
-	Presence  string   `json:"presence"`
-	V         any      `json:"v"`
-	Wire      *c05Wire `json:"wire"`
-	Decoy     bool     `json:"decoy"`
-	DecoyWire *c05Wire `json:"decoywire"`
+	Shape      string   `json:"shape"`
+	Schema     any      `json:"schema"`
+	Required   bool     `json:"required"`
+	Presence   string   `json:"presence"`
+	V          any      `json:"v"`
+	Wire       *c05Wire `json:"wire"`
+	Decoy      bool     `json:"decoy"`
+	AllowEmpty bool     `json:"allowEmpty"`
+	DecoyWire  *c05Wire `json:"decoywire"`
 }
 
 func errClass(err error) string {
@@ -72,8 +73,12 @@ func c05Run(c *Case) []any {
 	line := map[string]any{"case": c.Idx, "c": raw}
 
 	mkParam := func(name string, required bool) map[string]any {
-		return map[string]any{"name": name, "in": tc.Cell.In, "style": tc.Cell.Style, "explode": tc.Cell.Explode,
+		m := map[string]any{"name": name, "in": tc.Cell.In, "style": tc.Cell.Style, "explode": tc.Cell.Explode,
 			"required": required, "schema": absSchemaToOpenAPI(tc.Schema)}
+		if tc.AllowEmpty && name == "p" {
+			m["allowEmptyValue"] = true
+		}
+		return m
 	}
 	params := []any{mkParam("p", tc.Required)}
 	path := "/t"
